@@ -8,8 +8,9 @@
    C12_monotone: on timing data of the domain whose event beats lie on the tick grid the answer never decreases as time
    increases, for every tag and all pairs of times (across states, pauses and warps).
    Left to the correspondence on the dyadic family (exact floats), with the oracle stating them directly:
-   warp segments with a stop or delay inside or starting on beat 0
-   (C12_warp_elapse is the warp clause for the other segments; C12_half_tick the bound in beats). *)
+   warp segments with a stop or delay on their beats
+   (C12_warp_elapse is the warp clause for the other segments, those starting on beat 0 included; C12_half_tick the
+   bound in beats). *)
 From Coq Require Import List ZArith QArith Qabs Bool Sorting.Sorted.
 From SV Require Import Sx Beat Engine Proofs.EngineFacts Proofs.Hittable Proofs.TimeLaw Proofs.BeatAt Proofs.WarpElapse Proofs.RoundTripEvent Proofs.BeatMono.
 Import ListNotations.
@@ -127,7 +128,7 @@ Print Assumptions C12_roundtrip_on_event_beat.
 Theorem C12_warp_elapse : forall td b0 v0 rest, dom td -> td_bpms td = (b0, v0) :: rest -> b0 == 0 ->
   exists segs : list (Q * Q),
     (forall x, in_raw (td_warps td) x <-> exists s e, In (s, e) segs /\ s <= x /\ x < e) /\
-    forall s e d, In (s, e) segs -> 0 < s ->
+    forall s e d, In (s, e) segs ->
       (forall r, In r (td_stops td) \/ In r (td_delays td) -> ~ (s <= fst r /\ fst r <= e)) ->
       let T := time_at (sts td v0) (init_state td v0) e tBPM in
       fst (beat_at_raw (sts td v0) d T tWARP) == s /\ fst (beat_at_raw (sts td v0) d T tSTOP) == e.
@@ -170,4 +171,10 @@ Proof. vm_compute. reflexivity. Qed.
 Definition td_w : tdata := {| td_bpms := [(0, 120)]; td_stops := []; td_delays := []; td_warps := [(8, 3); (10, 2)]; td_offset := 0 |}.
 Example C12_warp_example :
   Qeq_bool (beat_at_of td_w 4 tWARP) 8 && Qeq_bool (beat_at_of td_w 4 tSTOP) 12 = true.
+Proof. vm_compute. reflexivity. Qed.
+
+(* ... and a warp that starts on beat 0 (offset -1: beat 0 is at time 1): the WARP tag answers 0, the default 4 *)
+Definition td_w0 : tdata := {| td_bpms := [(0, 120)]; td_stops := []; td_delays := []; td_warps := [(0, 4)]; td_offset := -1 |}.
+Example C12_warp_at_zero_example :
+  Qeq_bool (beat_at_of td_w0 1 tWARP) 0 && Qeq_bool (beat_at_of td_w0 1 tSTOP) 4 && Qeq_bool (beat_at_of td_w0 (3 # 2) tSTOP) 5 = true.
 Proof. vm_compute. reflexivity. Qed.
